@@ -31,11 +31,11 @@ CLAIMS = {
         note="The ANTLR runtime and generated parser bodies are tied by correspondence only. " + NOTE, ref="6 C03"),
     "C15": dict(
         technique="Lean 4 theorems (longest-match lexer spec; generic priority parser sound and complete w.r.t. the grammar regenerated from Glycan.g4: C15_accept_iff; the serialized ATN of GlycanParser.py equals the grammar rule by rule: C15_atn_matches_grammar, by a proved-sound partial-derivative / subset-construction bisimulation check evaluated in the kernel) + bounded-exhaustive correspondence",
-        text="C15_lex_longest_match, C15_parse_sound, C15_parse_complete, C15_accept_sound and C15_accept_iff (Model accepts s iff #s# tokenises by longest match and its whole token stream is a sentence of the start rule) and C15_atn_matches_grammar (for every parser rule, the rule's sub-automaton in the ATN regenerated from GlycanParser.py and the rule's right-hand side regenerated from Glycan.g4 accept the same words over token types and rule references; ruleOk_sound) are proved for all inputs against the grammar regenerated from Glycan.g4 on "
+        text="C15_lex_longest_match, C15_parse_sound, C15_parse_complete, C15_accept_sound and C15_accept_iff (Model accepts s iff #s# tokenises by longest match and its whole token stream is a sentence of the start rule) and C15_atn_matches_grammar (for every parser rule, the rule's sub-automaton in the ATN regenerated from GlycanParser.py and the rule's right-hand side regenerated from Glycan.g4 accept the same words over token types and rule references; ruleOk_sound) and C15_lexer_atn_matches_token_table (every token rule of the lexer ATN regenerated from GlycanLexer.py has the token type of, and accepts exactly the literals / the same words as, the corresponding rule of the token table regenerated from Glycan.g4; lexRuleOk_sound) are proved for all inputs against the grammar regenerated from Glycan.g4 on "
              "every run; acceptance of the real code is compared with the Model's recogniser on all strings of <=4 (quick) / <=5 (thorough) symbols of a "
              "16-symbol alphabet, every token literal in 9 contexts, corpus names and single-edit mutants.",
         note="partial: the adequacy of the concrete fuel bound is a side condition of C15_accept_iff evaluated by the driver per input (doubling the fuel changes nothing); "
-             "the ANTLR ALL(*) interpreter, the generated recursive-descent method bodies and the lexer ATN are not modelled (tied by correspondence). " + NOTE, ref="6 C15"),
+             "the ANTLR ALL(*) interpreter and lexer runtime and the generated recursive-descent method bodies are not modelled (tied by correspondence). " + NOTE, ref="6 C15"),
 }
 
 CLAIMS.update({
